@@ -74,10 +74,26 @@ def run_queries(mod, cfg, out, stats, cosim_cycles=0, extra_observe=lambda h: []
     make = maker_of(mod, cfg)
     hist = history_of(mod, cfg)
     elaborate_history(mod, hist)
-    if getattr(mod, "WARMUP", True):
-        # another instance of the same configuration is built and elaborated first as well
-        make().translate()
-    h = make()
+    try:
+        if getattr(mod, "WARMUP", True):
+            # another instance of the same configuration is built and elaborated first as well
+            make().translate()
+        h = make()
+    except (ValueError, TypeError) as e:
+        # every member of a configuration family is a legal configuration (the modules skip, before they get here,
+        # the layouts the library may refuse): a refusal is a violation, not a harness problem
+        import os
+        import traceback
+        tb = traceback.extract_tb(e.__traceback__)
+        if not any((os.sep + "amaranth_soc" + os.sep) in fr.filename for fr in tb):
+            raise
+        from .bmc import mark_violation
+        mark_violation(f"refused@{cfg_key(cfg)}")
+        out.violations.append({
+            "key": f"refused@{cfg_key(cfg)}",
+            "what": f"{mod.PROPERTY} a legal configuration is refused: {type(e).__name__}: {str(e)[:120]} ({cfg_key(cfg)})",
+            "query": "construct", "cfg": cfg, "stimulus": [], "prefix": 0, "k": 0, "detail": {}, "history": hist})
+        return
     ts = h.translate()
     st = ts.stats()
     for k, v in st.items():
@@ -115,6 +131,13 @@ def replay(mod, v):
     cfg = v["cfg"]
     elaborate_history(mod, v.get("history") or [])
     make = maker_of(mod, cfg)
+    if v.get("query") == "construct":
+        try:
+            make().translate()
+            make()
+            return False
+        except (ValueError, TypeError):
+            return True
     h = make()
     qs = {q.name: q for q in mod.queries(h, cfg)}
     q = qs[v["query"]]
